@@ -117,8 +117,8 @@ def deep_compare(a, b, case, where):
 		fail('signaturesmeta', ma, mb)
 	if a.gambit_version != b.gambit_version:
 		fail('gambit_version', a.gambit_version, b.gambit_version)
-	if a.timestamp != b.timestamp:
-		fail('timestamp', a.timestamp, b.timestamp)
+	if a.timestamp != b.timestamp or a.timestamp.utcoffset() != b.timestamp.utcoffset():
+		fail('timestamp', a.timestamp.isoformat(), b.timestamp.isoformat())
 	if a.extra != b.extra:
 		fail('extra', a.extra, b.extra)
 
@@ -200,6 +200,8 @@ def run_case(case, ctx):
 			                   genomeset=db.genomeset, signaturesmeta=db.signatures.meta, gambit_version=case['version'],
 			                   timestamp=datetime.datetime.fromisoformat(case['timestamp']), extra=case['extra'])
 			classes.add('synthetic')
+			if '+' in case['timestamp'][10:] or '-' in case['timestamp'][10:]:
+				classes.add('timestamp_with_utc_offset')
 
 		# ---- CSV ----
 		buf = io.StringIO()
@@ -401,7 +403,10 @@ def gen_case(draw, tier):
 		'path': st.one_of(st.none(), st.text(alphabet='abc/ ü.,', min_size=1, max_size=15).map(lambda s: '/' + s)),
 		'compression': st.sampled_from([None, 'gzip', 'auto']), 'nclosest': st.integers(0, 4),
 	}), min_size=0, max_size=5))
-	ts = draw(st.datetimes(min_value=datetime.datetime(1970, 1, 2), max_value=datetime.datetime(2100, 1, 1)))
+	# naive (what the default factory gives) and time-zone-aware timestamps (datetime.now(timezone.utc), .astimezone())
+	tzs = [datetime.timezone.utc, datetime.timezone(datetime.timedelta(hours=5, minutes=30)), datetime.timezone(datetime.timedelta(hours=-8), 'PST')]
+	ts = draw(st.datetimes(min_value=datetime.datetime(1970, 1, 2), max_value=datetime.datetime(2100, 1, 1),
+	                       timezones=st.one_of(st.none(), st.none(), st.sampled_from(tzs))))
 	return {'kind': 'synthetic', 'pretty': pretty, 'world': w, 'labels': labels, 'seed': draw(st.integers(0, 2 ** 20)), 'items': items,
 	        'dists': draw(st.lists(st.floats(0, 1, width=32), min_size=1, max_size=5)), 'f32': draw(st.sampled_from([True, True, False])),
 	        'params': [draw(st.booleans()), draw(st.sampled_from([1000, None, 1, 77])), draw(st.integers(1, 100))],
